@@ -36,7 +36,7 @@ structure Batch where
   nonce : Nat
   g : Nat
   txs : List PoolTx
-  deriving Repr
+  deriving DecidableEq, Repr
 
 structure OutCall where
   nonce : Nat
@@ -46,6 +46,10 @@ structure OutCall where
   fromMsg : Bool
   deriving Repr
 
+/-- Per-chain records.  `created`, `extLast`, `expired` are *ghost* components describing the external bridge contract
+(never read by `step`): every batch ever built, the contract's `state_lastBatchNonces[token]` (set by `submitBatch`,
+one entry PER TOKEN while fxcore allocates batch nonces from ONE counter per chain), and the batches whose external
+timeout height has passed (environment). -/
 structure ChainSt where
   pool : List PoolTx := []
   batches : List Batch := []
@@ -53,6 +57,9 @@ structure ChainSt where
   nextTx : Nat := 1
   nextBatch : Nat := 1
   nextCall : Nat := 1
+  created : List Batch := []
+  extLast : Nat → Nat := fun _ => 0
+  expired : List (Nat × Nat) := []
 
 structure State where
   L : Ledger
@@ -71,8 +78,9 @@ inductive Op where
   | cancel (c id u : Nat)
   /-- `MsgIncreaseBridgeFee` with a coin of the bridge denomination of `(g, c)` -/
   | incfee (c id u g n : Nat)
-  /-- `BuildOutgoingTxBatch(token, maxElements = 100, minimumFee = 0, baseFee)` -/
-  | batch (c g baseFee : Nat)
+  /-- `MsgRequestBatch{Denom = bridge denomination of (g, c), MinimumFee, BaseFee}` through the message router, signed by
+  a registered bridger (`asOracle`) or by a plain user -/
+  | batch (c g baseFee minFee : Nat) (asOracle : Bool)
   /-- observed `MsgSendToExternalClaim`: `OutgoingTxBatchExecuted` -/
   | executed (c g nonce : Nat)
   /-- batch timed out: `CancelOutgoingTxBatch` -/
@@ -146,6 +154,11 @@ def Op.chain? : Op → Option Nat
   | .btimeout c .. | .bcout c .. | .bcresult c .. | .bctimeout c .. | .bcin c .. | .bcinfail c .. => some c
   | _ => none
 
+/-- operations that touch the batch records of their chain -/
+def Op.touchesBatches : Op → Bool
+  | .batch .. | .executed .. | .btimeout .. => true
+  | _ => false
+
 def batchValue (b : Batch) : Nat := (b.txs.map (fun t => t.amount + t.fee)).sum
 
 /-- flow of `bridgeCallTransferTokens` (refund of a precompile-originated call goes back to the ERC-20) -/
@@ -168,6 +181,195 @@ def pairsFlow (cfg : Cfg) (tokens : List (Nat × Nat)) (f : Kind → Nat → Nat
 def okDen (cfg : Cfg) (g : Nat) : Den → Bool
   | .base => true
   | .chain c => decide (c < nChains) && cfg.onChain g c
+
+/-! ### `MsgRequestBatch` → `BuildOutgoingTxBatch`: the statements in source order
+
+The two functions are modelled as *interpreters over their statement lists* (`List RStep`, `List BStep`); the lists
+the model uses (`requestSteps`, `buildSteps`) are obliged to equal the lists regenerated from the Go AST
+(`Gen.C04.requestBatch_steps`, `Gen.C04.buildOutgoingTxBatch_steps`).  `pickUnBatchedTx` *removes* the selected transfers
+from the pool; they are written back (as a batch) only by `StoreBatch`.  Every early exit between the two must be an
+error — only an error makes the message's cache context discard the removal — and the caller must propagate it. -/
+
+inductive BGuard where
+  | maxZero | notProfitable | pickErr | noTx | belowMinFee | zeroTimeout | storeErr | unknown
+  deriving DecidableEq, Repr
+
+/-- how an `if <guard> { return … }` leaves `BuildOutgoingTxBatch`: `return nil, err` or `return nil, nil` -/
+inductive BExit where
+  | err | okNoBatch
+  deriving DecidableEq, Repr
+
+inductive BStep where
+  | guard (g : BGuard) (x : BExit)
+  /-- `selectedTx, err := k.pickUnBatchedTx(…)` -/
+  | pick
+  /-- `nextID := k.autoIncrementID(…)`; `k.StoreBatch(ctx, batch)` -/
+  | store
+  deriving DecidableEq, Repr
+
+/-- result of `BuildOutgoingTxBatch`: `(nil, err)`, `(nil, nil)`, `(batch, nil)` -/
+inductive BOut where
+  | err | nil | built
+  deriving DecidableEq, Repr
+
+structure BArgs where
+  g : Nat
+  baseFee : Nat
+  minFee : Nat
+
+structure BSt where
+  cs : ChainSt
+  /-- the Go variable `selectedTx` -/
+  sel : List PoolTx := []
+  built : Bool := false
+
+/-- `pickUnBatchedTx` selects the transfers of the token whose fee is at least the base fee (pool below
+`OutgoingTxBatchSize`) -/
+def selects (a : BArgs) (t : PoolTx) : Bool := t.g == a.g && decide (a.baseFee ≤ t.fee)
+
+/-- fees of the latest pending batch of the token (`GetLastOutgoingBatchByToken(...).GetFees()`), 0 if there is none -/
+def lastBatchFees (cs : ChainSt) (g : Nat) : Nat :=
+  ((cs.batches.filter (·.g == g)).foldl
+    (fun (acc : Nat × Nat) b => if b.nonce > acc.1 then (b.nonce, totalFees b.txs) else acc) (0, 0)).2
+
+def guardHolds (a : BArgs) (st : BSt) : BGuard → Bool
+  | .maxZero => false            -- `RequestBatch` passes `OutgoingTxBatchSize`
+  | .notProfitable => decide (lastBatchFees st.cs a.g > totalFees (st.cs.pool.filter (selects a)))
+  | .pickErr => false
+  | .noTx => st.sel.isEmpty
+  | .belowMinFee => decide (totalFees st.sel < a.minFee)
+  | .zeroTimeout => false        -- an external block height has been observed (environment)
+  | .storeErr => false           -- at most one batch request per block (environment)
+  | .unknown => false
+
+def runBuild (a : BArgs) : List BStep → BSt → BSt × BOut
+  | [], st => (st, if st.built then .built else .nil)
+  | .guard g x :: r, st =>
+    if guardHolds a st g then (st, match x with | .err => .err | .okNoBatch => .nil) else runBuild a r st
+  | .pick :: r, st =>
+    runBuild a r { st with
+      cs := { st.cs with pool := st.cs.pool.filter (fun t => !selects a t) },
+      sel := st.sel ++ st.cs.pool.filter (selects a) }
+  | .store :: r, st =>
+    let b : Batch := ⟨st.cs.nextBatch, a.g, st.sel⟩
+    runBuild a r { st with
+      cs := { st.cs with batches := b :: st.cs.batches, created := b :: st.cs.created, nextBatch := st.cs.nextBatch + 1 },
+      built := true }
+
+/-- statements of `BuildOutgoingTxBatch` (obliged to equal `Gen.C04.buildOutgoingTxBatch_steps`) -/
+def buildSteps : List BStep :=
+  [.guard .maxZero .err, .guard .notProfitable .err, .pick, .guard .pickErr .err, .guard .noTx .err,
+   .guard .belowMinFee .err, .guard .zeroTimeout .err, .store, .guard .storeErr .err]
+
+inductive RGuard where
+  | badSender | noToken | notOracle | buildErr | nilBatch | unknown
+  deriving DecidableEq, Repr
+
+inductive RExit where
+  | err | okEmpty
+  deriving DecidableEq, Repr
+
+inductive RStep where
+  | guard (g : RGuard) (x : RExit)
+  /-- `batch, err := s.BuildOutgoingTxBatch(…)` -/
+  | build
+  /-- `return &MsgRequestBatchResponse{BatchNonce: batch.BatchNonce}, nil` (dereferences `batch`) -/
+  | respond
+  deriving DecidableEq, Repr
+
+structure RArgs where
+  tokenFound : Bool
+  asOracle : Bool
+  b : BArgs
+
+def rguardHolds (a : RArgs) (o : Option BOut) : RGuard → Bool
+  | .badSender => false
+  | .noToken => !a.tokenFound
+  | .notOracle => !a.asOracle
+  | .buildErr => o == some .err
+  | .nilBatch => o == some .nil
+  | .unknown => false
+
+/-- `MsgServer.RequestBatch`; an `.error` result discards all writes (message-level cache context), an `.ok` result
+commits the chain state as it is at that point -/
+def runRequest (bs : List BStep) (a : RArgs) : List RStep → ChainSt × Option BOut → Except Err ChainSt
+  | [], (cs, _) => .ok cs
+  | .guard g x :: r, (cs, o) =>
+    if rguardHolds a o g then (match x with | .err => .error .invalid | .okEmpty => .ok cs)
+    else runRequest bs a r (cs, o)
+  | .build :: r, (cs, _) =>
+    let res := runBuild a.b bs { cs := cs }
+    runRequest bs a r (res.1.cs, some res.2)
+  | .respond :: _, (cs, o) => if o == some .built then .ok cs else .error .invalid   -- nil dereference: panic
+
+/-- statements of `MsgServer.RequestBatch` (obliged to equal `Gen.C04.requestBatch_steps`) -/
+def requestSteps : List RStep :=
+  [.guard .badSender .err, .guard .noToken .err, .guard .notOracle .err, .build, .guard .buildErr .err, .respond]
+
+/-- order condition on `BuildOutgoingTxBatch`: phase 0 = nothing picked, 1 = picked and not yet stored, 2 = stored.
+While transfers are picked and not stored every exit must be an error; the function must not end in phase 1. -/
+def safeOrder : Nat → List BStep → Bool
+  | ph, [] => ph != 1
+  | ph, .guard _ .err :: r => safeOrder ph r
+  | ph, .guard _ .okNoBatch :: r => ph != 1 && safeOrder ph r
+  | ph, .pick :: r => ph == 0 && safeOrder 1 r
+  | ph, .store :: r => ph == 1 && safeOrder 2 r
+
+/-- order condition on `RequestBatch` (`d`: a failed build may have left partial writes): an error of the build is
+propagated before any successful return -/
+def reqSafe : Bool → List RStep → Bool
+  | d, [] => !d
+  | _, .guard .buildErr .err :: r => reqSafe false r
+  | d, .guard _ .err :: r => reqSafe d r
+  | d, .guard .nilBatch .okEmpty :: r => reqSafe d r
+  | d, .guard _ .okEmpty :: r => !d && reqSafe d r
+  | d, .build :: r => !d && reqSafe true r
+  | _, .respond :: _ => true
+
+/-! ### `OutgoingTxBatchExecuted`: which other batches are cancelled; the external contract's acceptance rule -/
+
+inductive Cmp where
+  | lt | le | gt | ge | eq | ne | unknown
+  deriving DecidableEq, Repr
+
+def Cmp.eval : Cmp → Nat → Nat → Bool
+  | .lt, a, b => decide (a < b)
+  | .le, a, b => decide (a ≤ b)
+  | .gt, a, b => decide (a > b)
+  | .ge, a, b => decide (a ≥ b)
+  | .eq, a, b => decide (a = b)
+  | .ne, a, b => decide (a ≠ b)
+  | .unknown, _, _ => false
+
+/-- the guard of the cancel loop of `OutgoingTxBatchExecuted`:
+`iterBatch.BatchNonce <cmp> batch.BatchNonce [&& iterBatch.TokenContract == tokenContract]` -/
+structure CancelRule where
+  cmp : Cmp
+  sameToken : Bool
+  deriving DecidableEq, Repr
+
+/-- the rule the model uses (obliged to equal `Gen.C04.executedCancelRule`) -/
+def cancelRule : CancelRule := ⟨.lt, true⟩
+
+def cancels (r : CancelRule) (g nonce : Nat) (b : Batch) : Bool :=
+  r.cmp.eval b.nonce nonce && (!r.sameToken || b.g == g)
+
+def isBatch (g nonce : Nat) (b : Batch) : Bool := b.g == g && b.nonce == nonce
+
+/-- `OutgoingTxBatchExecuted(token of g, nonce)` on the chain's records (the batch is known to exist): the cancelled
+batches' transfers go back to the pool, the executed batch is deleted; ghost: the contract's last nonce of that
+token -/
+def executedWith (r : CancelRule) (cs : ChainSt) (g nonce : Nat) : ChainSt :=
+  { cs with
+    pool := (cs.batches.filter (cancels r g nonce)).flatMap (·.txs) ++ cs.pool,
+    batches := cs.batches.filter (fun b => !cancels r g nonce b && !isBatch g nonce b),
+    extLast := fun g' => if g' = g then nonce else cs.extLast g' }
+
+/-- the bridge contract's `submitBatch` still accepts the batch: it was signed (built) on fxcore,
+`state_lastBatchNonces[token] <cmp> nonce` (`cmp` = `<`, regenerated from `FxBridgeLogic.sol`), and its timeout height has
+not passed -/
+def extAcceptsWith (cmp : Cmp) (cs : ChainSt) (b : Batch) : Prop :=
+  b ∈ cs.created ∧ cmp.eval (cs.extLast b.g) b.nonce = true ∧ (b.g, b.nonce) ∉ cs.expired
 
 def refundCall (cfg : Cfg) (s : State) (c : Nat) (call : OutCall) (cs' : ChainSt) : Except Err State := do
   let fl1 ← tokensFlow cfg c call.tokens (fun k g n => bridgeCallRefundCoin k g c (U call.refund) n)
@@ -223,34 +425,25 @@ def stepCore (cfg : Cfg) (s : State) : Op → Except Err State
     if tx.g ≠ g then .error .invalid else
     let s1 ← run s (addBridgeFee k g c (U u) n)
     pure (finish s1 c { cs with pool := { tx with fee := tx.fee + n } :: rest } [] [])
-  | .batch c g baseFee => do
-    let some _ := bridged cfg g c | .error .notFound
-    let cs := s.chains c
-    let sel := cs.pool.filter (fun t => t.g == g && decide (baseFee ≤ t.fee))
-    -- "new batch would not be more profitable": the latest batch of this token carries more fees
-    let lastFees := ((cs.batches.filter (·.g == g)).foldl
-      (fun (acc : Nat × Nat) b => if b.nonce > acc.1 then (b.nonce, totalFees b.txs) else acc) (0, 0)).2
-    if lastFees > totalFees sel then .error .invalid else
-    if sel.isEmpty then .error .invalid else
-    pure (finish s c { cs with
-      pool := cs.pool.filter (fun t => !(t.g == g && decide (baseFee ≤ t.fee))),
-      batches := ⟨cs.nextBatch, g, sel⟩ :: cs.batches, nextBatch := cs.nextBatch + 1 } [] [])
+  | .batch c g baseFee minFee asOracle => do
+    -- `MsgRequestBatch.ValidateBasic` (message router): minimum fee positive
+    if minFee = 0 then .error .invalid else
+    let cs ← runRequest buildSteps ⟨(bridged cfg g c).isSome, asOracle, ⟨g, baseFee, minFee⟩⟩ requestSteps (s.chains c, none)
+    pure (finish s c cs [] [])
   | .executed c g nonce => do
     let cs := s.chains c
-    let exec := cs.batches.filter (fun b => b.g == g && b.nonce == nonce)
+    let exec := cs.batches.filter (isBatch g nonce)
     if exec.isEmpty then .error .notFound else
-    let older := cs.batches.filter (fun b => b.g == g && decide (b.nonce < nonce))
-    pure (finish s c { cs with
-      pool := older.flatMap (·.txs) ++ cs.pool,
-      batches := cs.batches.filter (fun b => !(b.g == g && decide (b.nonce ≤ nonce))) }
+    pure (finish s c (executedWith cancelRule cs g nonce)
       [] (exec.flatMap (fun b => b.txs.map (fun t => (t.g, t.amount + t.fee)))))
   | .btimeout c g nonce => do
     let cs := s.chains c
-    let sel := cs.batches.filter (fun b => b.g == g && b.nonce == nonce)
+    let sel := cs.batches.filter (isBatch g nonce)
     if sel.isEmpty then .error .notFound else
     pure (finish s c { cs with
       pool := sel.flatMap (·.txs) ++ cs.pool,
-      batches := cs.batches.filter (fun b => !(b.g == g && b.nonce == nonce)) } [] [])
+      batches := cs.batches.filter (fun b => !isBatch g nonce b),
+      expired := (g, nonce) :: cs.expired } [] [])
   | .bcout c u r tokens pre => do
     let cs := s.chains c
     let flIn ← if pre then pairsFlow cfg tokens (fun k g n => convertERC20 k g (U u) (U u) n) else pure []
